@@ -181,3 +181,68 @@ fn run_limited(bin: &str, rule_text: &str, channel: &Channel, limit_s: u64, env:
     use std::os::unix::process::ExitStatusExt;
     Ok(CliOut { code: status.code(), signal: status.signal(), stdout, stderr, timed_out })
 }
+
+/// Run the command with its standard output attached to a pseudo-terminal (raw mode, so nothing is translated) and the
+/// data as second argument.  None when the system hands out no pseudo-terminal.
+pub fn run_tty(bin: &str, rule_text: &str, data_text: &str) -> Result<Option<CliOut>, String> {
+    use std::os::unix::io::FromRawFd;
+    let (mut master, mut slave): (libc::c_int, libc::c_int) = (0, 0);
+    let rc = unsafe { libc::openpty(&mut master, &mut slave, std::ptr::null_mut(), std::ptr::null(), std::ptr::null()) };
+    if rc != 0 {
+        return Ok(None);
+    }
+    unsafe {
+        let mut t: libc::termios = std::mem::zeroed();
+        if libc::tcgetattr(slave, &mut t) == 0 {
+            libc::cfmakeraw(&mut t);
+            libc::tcsetattr(slave, libc::TCSANOW, &t);
+        }
+    }
+    let slave_file = unsafe { std::fs::File::from_raw_fd(slave) };
+    let mut master_file = unsafe { std::fs::File::from_raw_fd(master) };
+    let out_end = slave_file.try_clone().map_err(|e| e.to_string())?;
+    let mut child = {
+        let mut cmd = Command::new(bin);
+        cmd.arg(rule_text).arg(data_text).env("RUST_BACKTRACE", "0").env("TERM", "xterm-256color").stdin(Stdio::null()).stdout(Stdio::from(out_end)).stderr(Stdio::piped());
+        cmd.spawn().map_err(|e| format!("cannot spawn {}: {}", bin, e))?
+    };
+    drop(slave_file);
+    let reader = std::thread::spawn(move || {
+        let mut all = Vec::new();
+        let mut buf = [0u8; 4096];
+        loop {
+            match master_file.read(&mut buf) {
+                Ok(0) => break,
+                Ok(n) => all.extend_from_slice(&buf[..n]),
+                Err(_) => break, // EIO once the last slave descriptor is closed
+            }
+        }
+        all
+    });
+    let mut se = child.stderr.take().ok_or("no stderr")?;
+    let t_err = std::thread::spawn(move || {
+        let mut b = Vec::new();
+        let _ = se.read_to_end(&mut b);
+        b
+    });
+    let started = Instant::now();
+    let mut timed_out = false;
+    let status = loop {
+        match child.try_wait() {
+            Ok(Some(st)) => break st,
+            Ok(None) => {
+                if started.elapsed() > Duration::from_secs(180) {
+                    timed_out = true;
+                    let _ = child.kill();
+                    break child.wait().map_err(|e| e.to_string())?;
+                }
+                std::thread::sleep(Duration::from_micros(300));
+            }
+            Err(e) => return Err(e.to_string()),
+        }
+    };
+    let stdout = reader.join().unwrap_or_default();
+    let stderr = t_err.join().unwrap_or_default();
+    use std::os::unix::process::ExitStatusExt;
+    Ok(Some(CliOut { code: status.code(), signal: status.signal(), stdout, stderr, timed_out }))
+}
